@@ -10,7 +10,7 @@ from drivers import gwcommon as gc
 from mbt import batch, tlc
 from sim import gwrun
 
-CODE = {"ret": 1, "raise": 2, "sysexit": 3, "block": 4}
+CODE = {"ret": 1, "raise": 2, "sysexit": 3, "block": 4, "kbdint": 5}
 LINE = ["_local_schedulexec", "executetask", "_executetask", "_try_send_to_primary_thread", "integrate_as_primary_thread", "spawn", "_perform_spawn"]
 
 
@@ -27,6 +27,8 @@ def history_program(outcomes):
             bodies[k] = [("raise",)]
         elif oc == "sysexit":
             bodies[k] = [("sysexit",)]
+        elif oc == "kbdint":
+            bodies[k] = [("kbdint",)]
         else:
             bodies[k] = [("send", "channel", 200 + k), ("wait_gate", f"ans{k + 1}")]
             pending_block = k
@@ -45,7 +47,7 @@ def history_program(outcomes):
 def histories(maxlen):
     out = []
     for n in range(1, maxlen + 1):
-        for h in itertools.product(["ret", "raise", "sysexit", "block"], repeat=n):
+        for h in itertools.product(["ret", "raise", "sysexit", "kbdint", "block"], repeat=n):
             if any(h[i] == "block" and (i + 1 < n and h[i + 1] == "block") for i in range(n)):
                 continue
             out.append(list(h))
@@ -57,7 +59,7 @@ def real_histories(ctx):
     import execnet
 
     cases = []
-    hs = [["ret", "raise", "ret", "sysexit", "ret"], ["block", "ret", "ret"], ["raise", "block", "raise", "ret"]]
+    hs = [["ret", "raise", "ret", "sysexit", "ret", "kbdint", "ret"], ["block", "ret", "ret"], ["raise", "block", "kbdint", "ret"]]
     if not ctx.quick:
         hs += [["sysexit", "sysexit", "ret"], ["ret", "block", "sysexit", "block", "ret"], ["raise"] * 4 + ["ret"]]
     for h in hs:
@@ -89,7 +91,7 @@ def real_histories(ctx):
             pending = None
             for k, oc in enumerate(h, start=1):
                 body = "import threading\nchannel.send(('start', threading.current_thread() is threading.main_thread()))\n"
-                body += {"ret": "channel.send(1)", "raise": "raise RuntimeError('BOOM in body')", "sysexit": "raise SystemExit(3)",
+                body += {"ret": "channel.send(1)", "raise": "raise RuntimeError('BOOM in body')", "sysexit": "raise SystemExit(3)", "kbdint": "raise KeyboardInterrupt()",
                          "block": "channel.receive()"}[oc]
                 ev("call", "remote_exec", tok=CODE[oc])
                 ch = gw.remote_exec(body)
